@@ -959,10 +959,27 @@ func ruleC03InPlace(w *World, r *Report) {
 		return
 	}
 	// then every store to pdrs[i].qerIDList in MarkSessionQer derives from the old slice (append(x[:i], …), x[a:b])
+	// The contract is about the backing array: a reorder that never replaces the slice header at all —
+	// element stores into, or copy() onto, the list loaded from the field — is in place by construction
+	// and counts as an instance of the rule (nothing to demand of it here).
 	n := 0
+	inPlace := func(dst ssa.Value, pos token.Pos) {
+		if !isFreshSlice(dst) && sliceDerivesFromField(dst, "qerIDList", 0) {
+			n++
+			r.trivial("R03.8", w.FuncName(mark), fmt.Sprintf("qerIDList write #%d goes through the stored slice", n), w.Pos(pos), "element write into the old backing array, header untouched")
+		}
+	}
 	allInstrs(mark, func(i ssa.Instruction) {
+		if c, isCall := i.(*ssa.Call); isCall && calleeName(c) == "builtin.copy" {
+			inPlace(c.Call.Args[0], c.Pos())
+			return
+		}
 		st, ok := i.(*ssa.Store)
 		if !ok {
+			return
+		}
+		if ia, isElem := st.Addr.(*ssa.IndexAddr); isElem {
+			inPlace(ia.X, st.Pos())
 			return
 		}
 		fa, ok := st.Addr.(*ssa.FieldAddr)
